@@ -91,6 +91,18 @@ def check_seq(prop, tier, seed, scale=1.0):
     if prop in ("C02", "C13"):
         mfound, miri_cov = miri_seq_tier(prop, tier, seed, scale, "fault" if prop == "C13" else "std")
         found += mfound
+    sched_cov = {}
+    if prop in ("C01", "C03", "C07"):
+        # the same value / address / ledger oracles while tasks interleave (E-sched): a wrong view
+        # returned by the loser of the promotion race, or a control block leaked on that path,
+        # contradicts C01/C07/C03 as much as C05, but no single-threaded history can reach it
+        C.build_sched("vrelease")
+        n_ex = max(2000, int((150000 if tier == "quick" else 10000000) * scale))
+        r = C.run_batch("sched", "vrelease", seed, tag + 300, "sched", n_ex, 0, extra_args=["--per-prog", "8"])
+        found += [("vrelease", rec) for rec in r["violations"]]
+        st = C.merge_summaries(r["summaries"])
+        sched_cov = {"executions": st["runs"], "scheduling_points": st["steps"], "preemptions": st.get("x_preemptions", 0),
+                     "promotion_cas_lost": st["probes"].get("promotion_cas_lost", 0)}
     n_unknown = handle_violations(prop, "seq", found, tier)
     tot = C.merge_summaries(sums)
     wall = time.time() - t0
@@ -98,6 +110,7 @@ def check_seq(prop, tier, seed, scale=1.0):
         "evaluations": tot["runs"] + miri_cov.get("executions", 0),
         "distinct_nontrivial": len(tot["nontrivial"]),
         "miri_tier": miri_cov,
+        "sched_tier": sched_cov,
         "rule": RULES["seq"].replace("<=N", "<=%d" % steps),
         "samples": tot["samples"][:2] or [{"note": "no sample recorded"}],
         "steps": tot["steps"],
